@@ -40,6 +40,7 @@ fn main() {
 /// Re-execute one stored case in a forked child (so that a fault is reported, not fatal to the replayer).
 fn replay(v: &serde_json::Value, r: &mut Report, thorough: bool) {
     let v = v.clone();
+    let is_lasso = v["phase"].as_str() == Some("lasso");
     let items = vec![isolated("replay", move || {
         let mut r = Report::new();
         if v["phase"].as_str() == Some("lasso") {
@@ -71,10 +72,6 @@ fn replay(v: &serde_json::Value, r: &mut Report, thorough: bool) {
         r
     })];
     let out = format!("/tmp/h-alloc-replay-{}", std::process::id());
-    let rr = run_isolated(items, &out, if v_is_lasso(r) { "C04" } else { "C03" });
+    let rr = run_isolated(items, &out, if is_lasso { "C04" } else { "C03" });
     r.merge(rr);
-}
-
-fn v_is_lasso(_r: &Report) -> bool {
-    false
 }
